@@ -93,6 +93,34 @@ def run(chk):
         return True, "", [c.loc]
     chk.ob("C04.R1:SpanCtxt::new_root", "root = (random trace id, no parent, random span id)", new_root)
 
+    def random_is_the_draw(which, gen):
+        def f():
+            """`TraceId::random` / `SpanId::random`: the id is the value drawn from the rng and nothing else - a zero (or failed) draw gives no id
+            rather than a substitute.  A fallback constant (`unwrap_or(MIN)`, `| 1`, `max(1)`) makes two different draws map to one id: with a
+            source that never repeats, two spans - or a span and its own parent - can still share an id."""
+            b = P.body("emit::span::%s::random" % which)
+            bodies = [b] + P.closures_of(b)
+            draws = [(x, c) for x in bodies for c in x.calls(normal_only=True) if c.callee.get("name") == gen and (c.callee.get("trait") or c.callee.get("full") or "").find("Rng") >= 0]
+            if len(draws) != 1:
+                return False, "%s::random must draw from the rng at exactly one site (found %d)" % (which, len(draws)), [], b.span
+            SUBST = ("unwrap_or", "unwrap_or_default", "unwrap_or_else", "or", "or_else", "max", "min", "clamp", "get_or_insert", "get_or_insert_with",
+                     "map_or", "map_or_else", "saturating_add", "wrapping_add", "checked_add", "saturating_sub", "wrapping_sub", "new_unchecked", "xor", "insert")
+            for x in bodies:
+                rs = common.roots(x.origin(0))
+                for c in x.calls(normal_only=True):
+                    if ("callsite", c.bb) in rs and c.callee.get("name") in SUBST:
+                        return False, ("%s::random passes the draw through `%s`: a zero or failed draw is replaced by a substitute value instead of giving "
+                                       "no id, so distinct draws can yield equal ids" % (which, c.callee.get("name"))), [], c.loc
+                for k, v in rs:
+                    if k == "const" and isinstance(v, (int, bool)) or (k == "const" and isinstance(v, str) and re.search(r"::(MIN|MAX|ONE)$", v)):
+                        return False, "%s::random mixes the constant %s into the id it returns" % (which, v), [], x.span
+            if not any(("callsite", c.bb) in common.roots(x.origin(0)) for x, c in draws) and not any(x is not b for x, c in draws):
+                return False, "the id returned by %s::random does not derive from the draw" % which, [], b.span
+            return True, "", [draws[0][1].loc]
+        return f
+    chk.ob("C04.R1:TraceId::random", "a random trace id is exactly the rng's draw (none when the draw is zero or fails)", random_is_the_draw("TraceId", "gen_u128"))
+    chk.ob("C04.R1:SpanId::random", "a random span id is exactly the rng's draw (none when the draw is zero or fails)", random_is_the_draw("SpanId", "gen_u64"))
+
     def ctor():
         b = P.body(SC + "new")
         r = b.origin(0)
@@ -487,6 +515,10 @@ def run(chk):
     # "when a span ends the ambient ids revert to its parent's", also for carried frames: the default context's swap / snapshot rules
     if not getattr(chk, "_overlay", None):
         c03.thread_local_rules(chk, P, "C04.tl")
+        # incoming ids reach the context by enumeration (open_push walks the props it is given): a props list that ends its own enumeration early
+        # drops the trace id of `props! { trace_id, span_id: None }` (shared with C02)
+        from . import c02
+        c02.no_truncating_adaptors_rule(chk, P, "C04.R5:no-truncating-adaptors")
 
     def setup_before_begin():
         """`#[emit::span(setup: ..)]`: the code the macro generates runs the setup closure *before* it begins the span - begin_span reads the
